@@ -202,9 +202,9 @@ def time_limit(n): return 200e6 + 50e3 * n
 
 def modules_part(ck, binp, tier, seed, dist, scale):
     if tier == "quick":
-        nv, nm, nr, par = 40, 420, 200, 4
+        nv, nm, nr, par = 60, 900, 400, 4
     else:
-        nv, nm, nr, par = 600, 12000, 5000, 6
+        nv, nm, nr, par = 1200, 36000, 12000, 6
     nv, nm, nr = nv * scale, nm * scale, nr * scale
     rc, out = sh([binp, "-mode", "run", "-seed", str(seed), "-nvalid", str(nv), "-nmut", str(nm), "-nrand", str(nr),
                   "-par", str(par), "-work", os.path.join(WORK, "cases")], timeout=3000 if tier == "quick" else 14000)
@@ -259,7 +259,7 @@ def modules_part(ck, binp, tier, seed, dist, scale):
                 mism[i] = x & 15
     # --- distribution
     d = {"class": {}, "mutations": {}, "decode_accepted": 0, "compile_accepted": 0, "ran": 0, "calls": 0, "outcomes": {}, "timeouts": 0,
-         "died": len(died), "model_mismatches": len(mism), "max_alloc_ratio": 0.0, "max_ms": 0.0, "run_skipped": 0}
+         "died": len(died), "model_mismatches": len(mism), "other_errors": {}, "max_alloc_ratio": 0.0, "max_ms": 0.0, "run_skipped": 0}
     for i in ids:
         inp = inputs[i]
         d["class"][inp["class"]] = d["class"].get(inp["class"], 0) + 1
@@ -275,6 +275,9 @@ def modules_part(ck, binp, tier, seed, dist, scale):
             d["ran"] += 1; d["calls"] += ro["calls"]; d["timeouts"] += ro.get("timeouts", 0)
             for k, n in (ro.get("outcomes") or {}).items():
                 d["outcomes"][k] = d["outcomes"].get(k, 0) + n
+            for t in ro.get("others") or []:
+                t = re.sub(r"\d+", "N", t)[:90]
+                d["other_errors"][t] = d["other_errors"].get(t, 0) + 1
         for m in [r["dec"]] + list(r["comp"].values()):
             d["max_alloc_ratio"] = max(d["max_alloc_ratio"], round(m["alloc"] / alloc_limit(r["len"]), 3))
             d["max_ms"] = max(d["max_ms"], round(m["ns"] / 1e6, 1))
@@ -304,6 +307,9 @@ def modules_part(ck, binp, tier, seed, dist, scale):
             cause = ("oom" if "out of memory" in err or "cannot allocate" in err else
                      "hang" if dd["how"].startswith("hang") else
                      "fault" if re.search(r"SIGSEGV|SIGBUS|SIGILL|unexpected signal|fatal error", err) else "exit")
+            if cause == "oom" and dd["stage"].startswith("run") and re.search(r"MemoryInstance\)\.Grow|TableInstance\)\.Grow|NewMemoryInstance|NewTableInstance", err):
+                ck.note("input %d: the guest asked for more memory than the child's address-space cap (%s) — not a violation" % (i, dd["stage"]))
+                continue
             if cause in ("oom", "hang") and site and dd["stage"].startswith(("decode", "compile")):
                 report("resource-amplification", {"kind": "resource-amplification", "site": site},
                        dict(base, how="child " + cause, stage=dd["stage"], died=dd))
@@ -315,7 +321,9 @@ def modules_part(ck, binp, tier, seed, dist, scale):
         # totality: no panic
         for stage, m in [("decode", r["dec"])] + [("compile-" + e, m) for e, m in r["comp"].items()]:
             if m.get("panic"):
-                report("compile-panic", {"kind": "compile-panic", "stage": re.sub(r"-.*", "", stage)}, dict(base, stage=stage, panic=m["panic"]), limit=2)
+                what = re.sub(r"\d+", "N", re.sub(r"\[-\d+\]", "[negative]", m["panic"]))
+                report("compile-panic", {"kind": "compile-panic", "func": m.get("panicfn", ""), "what": what},
+                       dict(base, stage=stage, panic=m["panic"], at=m.get("panicat")), limit=1)
         # proportionality
         for stage, m in [("decode", r["dec"])] + [("compile-" + e, m) for e, m in r["comp"].items()]:
             how = []
